@@ -6,7 +6,7 @@ import ast
 from ..interp import Interp
 from ..lib import loc, unparse
 from ..repo import walk_scope
-from ..terms import App, Attr, Obj, Op, Sub, Sym, Term, vkey
+from ..terms import App, Attr, Obj, Op, Sub, Sym, Term, mentions, vkey
 
 API = "cascade.shm.api"
 META = {
@@ -339,7 +339,19 @@ def r5_gateway(ctx):
 
     def fields_of(run, a, k, n, f):
         recv = run.cur_call.get("recv_value")
-        return dict(recv.fields) if isinstance(recv, Obj) else Sym("dump")
+        if not isinstance(recv, Obj):
+            return Sym("dump")
+        d = dict(recv.fields)
+        kw = run.cur_call.get("kwargs") or {}
+        if kw.get("exclude_unset") is True:
+            for f_ in recv.kwargs.get("_filled_in_place", ()):  # a field left at its default by the constructor and filled afterwards is not "set" for pydantic
+                d.pop(f_, None)
+        if kw.get("exclude_none") is True:
+            d = {k_: v_ for k_, v_ in d.items() if v_ is not None}
+        for opt in ("exclude", "include"):
+            if isinstance(kw.get(opt), (set, list, tuple, dict)):
+                d = {k_: v_ for k_, v_ in d.items() if (k_ in kw[opt]) == (opt == "include")}
+        return d
 
     def dumps(run, a, k, n, f):
         return ("json-wire", _copy.deepcopy(a[0]) if a and isinstance(a[0], dict) else a[0] if a else None)
@@ -366,7 +378,7 @@ def r5_gateway(ctx):
                     ws.append(e.data.get("result"))
         return ws
 
-    req = Obj(f"{A}.JobProgressRequest", {"job_ids": ["j1"]}, name="req")
+    req = Obj(f"{A}.JobProgressRequest", {"job_ids": ["j1"]}, kwargs={"_filled_in_place": ("job_ids",)}, name="req")
     resp = Obj(f"{A}.JobProgressResponse", {"progresses": {"j1": "50.00"}, "error": None}, name="resp")
     other = Obj(f"{A}.ResultRetrievalResponse", {"result": None, "error": "e"}, name="other-resp")
 
@@ -481,3 +493,50 @@ def r6_json_keys(ctx):
 
 
 RULES = [r1_layouts, r2_registry, r3_widths, r4_pickle_pairs, r4b_report_kind, r5_gateway, r6_json_keys]
+
+from .common import lazy  # noqa: E402
+RULES.append(lazy("C06", "r6_frames", "the frames send_data / callback put on the wire are the ones the listener decodes, for every payload incl. the empty one"))
+
+
+B64_PAIRS = {"b64encode": "b64decode", "urlsafe_b64encode": "urlsafe_b64decode", "standard_b64encode": "standard_b64decode", "b32encode": "b32decode",
+             "b16encode": "b16decode", "b85encode": "b85decode", "a85encode": "a85decode", "encodebytes": "decodebytes", "b32hexencode": "b32hexdecode"}
+
+
+def r7_result_codec(ctx):
+    """C17.R7 / C18: a job result travels gateway -> frontend as text: the function that encodes it in handle_fe and the function that
+    decodes it in api.decoded_result are an inverse pair of the same alphabet (b64decode silently skips '-' and '_', so a url-safe
+    encoder paired with the standard decoder corrupts every result whose encoding contains those characters)."""
+    repo = ctx.repo
+    S = "cascade.gateway.server"
+    A = "cascade.gateway.api"
+    fe, dec = repo.func(f"{S}.handle_fe"), repo.func(f"{A}.decoded_result")
+    ctx.analysed(fe.qual)
+    ctx.analysed(dec.qual)
+    req = Obj(f"{A}.ResultRetrievalRequest", {"job_id": "j1", "dataset_id": Obj("cascade.low.core.DatasetId", {"task": "t", "output": "0"}, frozen=True)}, name="req")
+    RAW = Sym("RESULT_BYTES")
+    ip = Interp(repo, call_models={"cascade.gateway.client.parse_request": lambda run, a, k, n, f: req, ("method", "get_result"): lambda run, a, k, n, f: RAW},
+                inline=lambda f: f.qual.startswith(S + ".") and f.qual != fe.qual)
+    enc = []
+    for p in ip.explore(fe):
+        for e in p.effects:
+            if e.kind == "call" and (e.data.get("name") or "").startswith("base64.") and any(mentions(a, "RESULT_BYTES") for a in e.data["args"]):
+                enc.append((e.data["name"].split(".", 1)[1], e))
+    ip = Interp(repo)
+    decs = []
+    for p in ip.explore(dec, args={"result": Obj(f"{A}.ResultRetrievalResponse", {"result": Sym("RESULT_TEXT"), "error": None}, name="resp")}):
+        for e in p.effects:
+            if e.kind == "call" and (e.data.get("name") or "").startswith("base64.") and any(mentions(a, "RESULT_TEXT") for a in e.data["args"]):
+                decs.append((e.data["name"].split(".", 1)[1], e))
+    en, dn = sorted({n for n, _ in enc}), sorted({n for n, _ in decs})
+    if len(en) != 1 or len(dn) != 1:
+        ctx.undecided("C17.R7", loc(fe), f"cannot identify one text encoder / decoder of the result: encoders {en}, decoders {dn}")
+        return
+    if B64_PAIRS.get(en[0]) != dn[0]:
+        ctx.violation("C17.R7", fe.qual, loc(fe, enc[0][1].node), "result encoder and decoder are inverse",
+                      f"the gateway encodes a result with base64.{en[0]} and the frontend decodes it with base64.{dn[0]}: not an inverse pair "
+                      f"(expected base64.{B64_PAIRS.get(en[0], '?')}) — results are returned corrupted or truncated without any error")
+    else:
+        ctx.ok("C17.R7", loc(fe, enc[0][1].node), f"result codec: base64.{en[0]} / base64.{dn[0]}")
+
+
+RULES.append(r7_result_codec)
